@@ -131,6 +131,25 @@ func (e *Engine) specCall(env *SpecEnv, x *SExpr) Value {
 				Eq(Select(now, r), Select(was, r)))))
 		}
 		return And(cs...)
+	case "other_maps_unchanged":
+		// other_maps_unchanged(m): every map of m's type that existed at function
+		// entry, other than m itself, has the entries it had at entry
+		need(1)
+		mv, ok := e.evalSpec(env, args[0]).(MapV)
+		if !ok || env.old == nil {
+			sfail("other_maps_unchanged needs a map (and an entry state)")
+		}
+		r := T("r!om", SInt)
+		var cs []Term
+		kss := append([]KeySort{e.mapDomKS(mv.T), e.mapLenKS(mv.T)}, e.mapValKS(mv.T)...)
+		for _, ks := range kss {
+			e.noteHeapKey(ks.Key, ks.Sort)
+			now := env.st.heapArr(ks.Key, ks.Sort)
+			was := env.old.heapArr(ks.Key, ks.Sort)
+			cs = append(cs, Forall([]Term{r}, Implies(And(Lt(IntLit(0), r), Lt(r, env.old.nextRefTerm()), Neq(r, mv.Ref)),
+				Eq(Select(now, r), Select(was, r)))))
+		}
+		return And(cs...)
 	case "arrof":
 		// arrof(s): the identity of the backing array of a slice
 		need(1)
